@@ -14,6 +14,7 @@ pass); none of them knows about any property.
                 the reference tree (spec/reference_functions.json) is replaced by its body, parameters substituted (place-like
                 arguments) or let-bound (the rest); the statements of the inlined body are hoisted in front of the statement that
                 contained the call when everything evaluated before the call in that statement is pure
+  case-of-case  a match on the Option/Result built by an inlined helper's match is pushed into that match's branches
   alias         `let a = b;` with `a`, `b` immutable locals                          -> uses of `a` replaced by `b`
   param-names   parameters of reference functions are given their reference names by position (a renamed parameter is the same
                 parameter)
@@ -487,6 +488,82 @@ def hoist(root):
     return map_tree(root, fn)
 
 
+def case_of_case(root):
+    """`match (match s { p => Some(e), q => None }) { Some(c) => A, None => B }`  ->  `match s { p => { let c = e; A }, q => B }`
+    when the inner match came from an inlined helper: the helper's Option/Result protocol disappears again."""
+    def leaves_ok(e):
+        e = hir.simp(e)
+        if not isinstance(e, dict):
+            return False
+        k = e.get("k")
+        if k == "match" and e.get("src") not in ("TryDesugar", "ForLoopDesugar"):
+            return all(leaves_ok(a["body"]) for a in e["arms"])
+        if k == "if" and "e" in e:
+            return leaves_ok(e["t"]) and leaves_ok(e["e"])
+        if k == "block":
+            return "expr" in e and leaves_ok(e["expr"])
+        if k == "call" and e.get("ctor", "").split("::")[-1] in ("Some", "Ok", "Err") and len(e["args"]) == 1:
+            return True
+        if k == "def" and (e.get("path") or "").endswith("Option::None"):
+            return True
+        return False
+
+    def push(e, arms):
+        e0 = hir.simp(e)
+        k = e0.get("k")
+        if k == "match":
+            return dict(e0, arms=[dict(a, body=push(a["body"], arms)) for a in e0["arms"]], ty=arms["ty"])
+        if k == "if":
+            return dict(e0, t=push(e0["t"], arms), e=push(e0["e"], arms), ty=arms["ty"])
+        if k == "block":
+            return dict(e0, expr=push(e0["expr"], arms), ty=arms["ty"])
+        if k == "call":
+            tag = e0["ctor"].split("::")[-1]
+            pat, body = arms[tag]
+            body = copy.deepcopy(body)
+            if pat is None:
+                return body
+            return {"k": "block", "stmts": [{"k": "let", "pat": copy.deepcopy(pat), "init": e0["args"][0], "ln": e0.get("ln"), "inl": e0.get("inl", True)}],
+                    "expr": body, "ty": arms["ty"], "ln": e0.get("ln")}
+        tag = "None"
+        return copy.deepcopy(arms[tag][1])
+
+    def fn(n):
+        if n.get("k") != "match" or n.get("src") in ("TryDesugar", "ForLoopDesugar"):
+            return n
+        sc = hir.simp(n["scrut"])
+        if not (isinstance(sc, dict) and sc.get("k") in ("match", "if") and sc.get("inl") and leaves_ok(sc)):
+            return n
+        arms = {"ty": n.get("ty")}
+        for a in n["arms"]:
+            if "guard" in a:
+                return n
+            p = a["pat"]
+            k = p.get("k")
+            seg = hir.last_seg(hir.pat_path(p) or "")
+            if k in ("pts", "pstruct") and seg in ("Some", "Ok", "Err"):
+                subs = p.get("pats") if k == "pts" else [f["p"] for f in p.get("fields", [])]
+                if len(subs) != 1 or subs[0].get("k") not in ("pbind", "pwild"):
+                    return n
+                arms[seg] = (subs[0] if subs[0].get("k") == "pbind" else None, a["body"])
+            elif (k == "ppath" or (k in ("pts", "pstruct") and not (p.get("pats") or p.get("fields")))) and seg == "None":
+                arms["None"] = (None, a["body"])
+            else:
+                return n
+        needed = set()
+        for x in all_nodes(sc):
+            if x.get("k") == "call" and x.get("ctor", "").split("::")[-1] in ("Some", "Ok", "Err"):
+                needed.add(x["ctor"].split("::")[-1])
+            if x.get("k") == "def" and (x.get("path") or "").endswith("Option::None"):
+                needed.add("None")
+        if not needed <= set(arms):
+            return n
+        out = push(sc, arms)
+        out["norm"] = "case-of-case"
+        return out
+    return map_tree(root, fn)
+
+
 def alias(root, params):
     """`let a = b;` with immutable a and b: a is another name for b."""
     modes = {}
@@ -783,6 +860,7 @@ def normalise_crate(name, crate):
             h2 = inl.expand(h)
             if any(x.get("inlined") for x in all_nodes(h2) if isinstance(x, dict)):
                 h2 = hoist(h2)
+                h2 = case_of_case(h2)
                 b["inlined_from"] = sorted({x["inlined"] for x in all_nodes(h2) if x.get("inlined")} |
                                            {x["inl"] for x in all_nodes(h2) if x.get("inl")})
             h = h2
